@@ -38,6 +38,10 @@ FTYPES = {
     "ArrTup": ("[(T, u8); 2]", "T", False, None),
     # a fn pointer written with its own binder
     "FnHr": ("for<'x> fn(&'x T) -> &'x T", "T", False, None),
+    # a fn pointer without return type behind a reference / raw pointer (`&'l fn(T): Trait` does not parse as a predicate)
+    "RefFn": ("&'l fn(T)", "T", True, None),
+    "PtrFn": ("*const fn(T)", "T", False, None),
+    "FnPtrFn": ("fn() -> *mut fn(T)", "T", False, None),
     "QAssocRel": ("<T as dxrt::Tr>::Assoc", "T", False, None),
     # the same types written with redundant parentheses / a trailing comma
     "ParT": ("(T)", "T", False, None),
@@ -63,7 +67,7 @@ def concrete_ok(ft, trait):
         return trait != "Neg"
     if ft == "RefU8":
         return trait in ("Copy", "Clone", "Debug", "PartialEq", "Eq", "PartialOrd", "Ord", "Hash")
-    if ft == "FnHr":
+    if ft in ("FnHr", "RefFn", "PtrFn", "FnPtrFn"):
         # with the operators the harness' own hand-written twin would need a second binder; the plain traits are what matters
         return trait in PLAIN
     return True
@@ -288,7 +292,8 @@ def twin_impls(spec, name):
                 "PartialOrd": "fn partial_cmp(&self, _: &Self) -> ::core::option::Option<::core::cmp::Ordering> { loop {} }",
                 "Ord": "fn cmp(&self, _: &Self) -> ::core::cmp::Ordering { loop {} }",
                 "Hash": "fn hash<HH: ::core::hash::Hasher>(&self, _: &mut HH) { loop {} }"}[t]
-        out.append(impl_header(spec, name, PATH[t], me, [f"{x}: {PATH[t]}" for x in tys]) + f" {{ {body} }}")
+        # (a bounded type that ends in `fn(..)` has to be parenthesized when written by hand)
+        out.append(impl_header(spec, name, PATH[t], me, [(f"({x})" if "fn(" in x else x) + f": {PATH[t]}" for x in tys]) + f" {{ {body} }}")
         return "\n".join(out)
     tp = f"::core::ops::{t}"
     fn = (C.OPFN[t[:-6]] + "_assign") if t in C.ASSIGNOPS else C.OPFN[t]
@@ -398,7 +403,7 @@ def core(rng):
     # every trait x a few characteristic field types, struct form
     for t in PLAIN + C.BINOPS + C.ASSIGNOPS + C.UNOPS:
         for fts in (["PhT", "T"], ["FwdT", "AlwaysT"], ["NeverT"], ["OptT", "u8"], ["ArrN", "Yes"], ["Assoc", "U"], ["TupT8", "Tup8T"],
-                    ["ResT8", "FnT8"], ["FnHr", "T"], ["FnHr"], ["QAssocRel", "ArrTup"], ["OptTup"], ["ParT", "TupTc"], ["ParOpt", "RefPar"]):
+                    ["ResT8", "FnT8"], ["FnHr", "T"], ["FnHr"], ["RefFn"], ["PtrFn", "u8"], ["FnPtrFn", "T"], ["QAssocRel", "ArrTup"], ["OptTup"], ["ParT", "TupTc"], ["ParOpt", "RefPar"]):
             k += 1
             fts = [f for f in fts if concrete_ok(f, t)]
             specs.append({"trait": t, "kind": "struct", "entry": "attr" if k % 2 else "derive", "where_tr": k % 4 == 0, "dv": 0,
